@@ -39,6 +39,20 @@ def classify(ev, events, pos):
         feats.append("path-variable")
     if re.search(r"where\b[^;]*?(?:not\s+)?\(\w*(?::\w+)?(?:\s*\{[^}]*\})?\)\s*(?:<-|-)\s*\[", low):
         feats.append("pattern-predicate")
+    # a relationship pattern used as a value (in a projection, an ORDER BY or an UNWIND) and path functions
+    for m in re.finditer(r"\b(return|with|unwind|order\s+by)\b(.*?)(?=\b(?:optional\s+match|match|unwind|with|create|merge|set|detach\s+delete|delete|remove|return|order\s+by|where)\b|$)", low):
+        if re.search(r"\(\s*\w*\s*\)\s*(?:<-|-)\s*(?:\[|-)", m.group(2)):
+            feats.append("pattern-as-value")
+            break
+    if re.search(r"\b(nodes|relationships|length)\s*\(\s*\(*\s*p\b", low):
+        feats.append("path-function")
+    if re.search(r"\bunwind\s+\(*\s*id\s*\(", low):
+        feats.append("unwind-of-id")
+    # a projection item that is a conjunction / disjunction (the translator splits it into an item and a filter)
+    for m in re.finditer(r"\b(return|with)\b(.*?)(?=\b(?:optional\s+match|match|unwind|with|create|merge|set|detach\s+delete|delete|remove|return|order\s+by|where)\b|$)", low):
+        if re.search(r"\b(and|or|xor)\b", m.group(2)) and not re.search(r"\bwhere\b", m.group(2)):
+            feats.append("boolean-projection")
+            break
     dml = []
     for e in events[1:pos]:
         if e["e"] == "dml_push":
@@ -63,14 +77,19 @@ def classify(ev, events, pos):
             return "a-from-item-that-appears-later"
         return "never-defined"
 
+    def family(name):
+        """what kind of generated name it is: n (node), e (edge), s (frame), i (unwind / projection), pc (path composite), ..."""
+        m = re.fullmatch(r"([a-z_]+?)\d+(_\w+)?", name)
+        return m.group(1) if m else "user"
+
     if ev["e"] == "from_table":
         return "from-names-unknown-table-or-cte/%s/%s" % (where(ev["name"][0]), shape)
     if ev["e"] == "ref":
         if len(ev["parts"]) == 2:
             q = ev["parts"][0]
             visible = any(e["e"] in ("from_table", "from_end", "dml_push") and (e.get("alias") or (e.get("name") or [""])[0]) == q for e in events[1:pos])
-            return "%s/%s/%s" % ("column-not-provided-or-item-hidden" if visible else "qualifier-not-in-scope", where(q), shape)
-        return "bare-name-unresolved/%s/%s" % (where(ev["parts"][0]), shape)
+            return "%s:%s/%s/%s" % ("column-not-provided-or-item-hidden" if visible else "qualifier-not-in-scope", family(q), where(q), shape)
+        return "bare-name-unresolved:%s/%s/%s" % (family(ev["parts"][0]), where(ev["parts"][0]), shape)
     if ev["e"] == "cte_end":
         return "cte-column-list-arity/%s" % shape
     if ev["e"] == "param":
@@ -90,6 +109,7 @@ def run(ctx):
                         "bare (unqualified) names are resolved leniently; the column lists of function calls in FROM and of SELECT * are unknown and accept any column",
                         "queries: every accepted text of the corpora and of the harness's input classes that translates"]
     trace = os.path.join(ctx.work, "scope.ndjson")
+    ctx.grammar_corpus(stride=4 if quick else 1)
     ctx.vh(["scope", "run", "--out", trace], timeout=3000)
     n_ok, rejected = validate_histories(ctx, AREA, "SqlScope", trace, chunk_events=4000, max_cand=400, parallel=12, timeout=1800)
     ctx.cov["traces_validated_against_impl"] += n_ok
@@ -119,6 +139,10 @@ def run(ctx):
     ctx.cov["rule"] = ("one history per translated statement; every reference, FROM item, CTE, parameter and DML node of the statement's syntax tree is an event that the resolver in "
                        "SqlScope.tla must accept.  non-trivial = statements with at least two common table expressions")
     seen = set()
+    if os.environ.get("C03_DUMP"):      # development aid: every rejected statement with its class
+        with open(os.environ["C03_DUMP"], "w") as f:
+            for hid, ev, events, pos in rejected:
+                f.write(json.dumps({"key": classify(ev, events, pos), "text": events[0]["text"], "ev": ev}) + "\n")
     for hid, ev, events, pos in rejected:
         key = classify(ev, events, pos)
         if key in seen:
